@@ -9,6 +9,7 @@
 -/
 import GM.Model.RenderIR
 import GM.Proof.RenderIR
+import GM.Props.ConvertE2E
 
 namespace GM.Props.C10
 open GM
@@ -198,5 +199,24 @@ example : render (mkRCfg { xhtml := true } { table := true }) cellTree = strByte
   decide +kernel
 example : render (mkRCfg { xhtml := false } { table := true }) cellTree =
     strBytes "<td style=\"text-align:left\"></td>\n" := by decide +kernel
+
+/-- (re-export of `GM.Props.ConvertE2E.convert_options_orthogonal`) `convert_options_orthogonal` (C10 `render_factor` / `xhtml_only_voids_render` / `hardwraps_only_softbreaks` /
+    `unsafe_only_raw_render` between `convertCore uc o src` and `convertCore uc o' src`). For EVERY source there is ONE
+    piece list `ps`, computed without the three options, such that for every option set the HTML `convertCore` answers
+    is (a) the concatenation of `emit o.xhtml o.hardWraps o.unsafe_` over `ps`; (b) — XHTML — the concatenation over the
+    HardWraps-rewritten list of bytes that do not depend on XHTML, except that each void end is `>` / ` />`; (c) —
+    HardWraps — the HardWraps-off emission with `<br` + void end in front of each soft break; (d) — Unsafe — the safe
+    emission of every piece that is neither raw HTML nor a destination classified dangerous. Or the parse phases fail
+    and every option set gets the same error. -/
+theorem convert_options_orthogonal : type_of% @GM.Props.ConvertE2E.convert_options_orthogonal := @GM.Props.ConvertE2E.convert_options_orthogonal
+
+/-- (re-export of `GM.Props.ConvertE2E.convert_tree_independent_of_options`) `convert_tree_independent_of_options`. By construction of `convertCore` the parse phases do not see the renderer
+    options: either they answer one tree `t` and the outcome is `render` of THAT tree for every option set (no option
+    set makes the renderer panic), or they answer one error and that is the outcome for every option set. -/
+theorem convert_tree_independent_of_options : type_of% @GM.Props.ConvertE2E.convert_tree_independent_of_options := @GM.Props.ConvertE2E.convert_tree_independent_of_options
+
+/-- (re-export of `GM.Props.ConvertE2E.convert_unsafe_only_changes_raw`) `convert_unsafe_only_changes_raw`: two conversions of the same source that differ only in `Unsafe` are emissions of
+    the same piece list that agree on every piece that is neither raw HTML nor a dangerous destination. -/
+theorem convert_unsafe_only_changes_raw : type_of% @GM.Props.ConvertE2E.convert_unsafe_only_changes_raw := @GM.Props.ConvertE2E.convert_unsafe_only_changes_raw
 
 end GM.Props.C10
